@@ -22,6 +22,7 @@ import PrqlModel.Drv.Rq
 import PrqlModel.Drv.Scope
 import PrqlModel.Drv.Anchor
 import PrqlModel.Drv.InferSorts
+import PrqlModel.Drv.Flatten
 namespace Drv
 
 def handlers : List (List String → Option String) := [
@@ -42,7 +43,8 @@ def handlers : List (List String → Option String) := [
   Drv.Rq.handle,
   Drv.Scope.handle,
   Drv.Anchor.handle,
-  Drv.InferSorts.handle
+  Drv.InferSorts.handle,
+  Drv.Flatten.handle
 ]
 
 def handle (fields : List String) : String :=
